@@ -401,6 +401,10 @@ func orAlternatives(t *rapid.T, n *model.Node, o ScalarOpts, label string) []mod
 					rs = append(rs, model.R("minLength", model.Num(fmt.Sprint(max0(ln+rapid.IntRange(-1, 1).Draw(t, l+"d"))))))
 				}
 			}
+			if n.Kind != "null" && rapid.IntRange(0, 4).Draw(t, l+"const") == 0 {
+				// `const` inside the rule-set: the value is the example the `or` rule is written next to
+				rs = append(rs, model.R("const", model.Bool(rapid.IntRange(0, 3).Draw(t, l+"constv") != 0)))
+			}
 			alts = append(alts, model.Set(rs...))
 		case 1: // plain built-in type name
 			alts = append(alts, model.Str(rapid.SampledFrom([]string{"string", "integer", "float", "boolean", "null", n.Kind}).Draw(t, l+"tn")))
